@@ -88,29 +88,23 @@ func init() {
 								facts = append(facts, condFact{cc, tt})
 							}
 						}
-						var extra []string
-						okSSN, okFrag := false, false
-						for _, f := range facts {
-							if isLoopBound(f.Cond) || isRangeOK(f.Cond) {
-								continue
-							}
-							if !mentionsElemOf(f.Cond, ordered, 0, map[ssa.Value]bool{}) {
-								continue // says nothing about which queued set is chosen
-							}
-							switch {
-							case CmpCond(token.EQL, IsLoadOf(ssn), AnyV)(f.Cond, f.Taken):
-								okSSN = true
-							case CallCond(isFrag, true)(f.Cond, f.Taken):
-								okFrag = true
-							case phiExplainedBy(f.Cond, facts):
-							default:
-								extra = append(extra, fmt.Sprintf("%s=%v", shortValue(c.P, f.Cond), f.Taken))
-							}
-						}
-						c.Check(okSSN && len(extra) == 0, "set-match", c.Pos(phi), fmt.Sprintf("existing set chosen by set.ssn == chunk.ssn (first-chunk-is-fragment test present: %v) and nothing else about the set", okFrag),
-							"the existing set of the message is chosen (or passed over) by another property of the queued set: "+strings.Join(extra, ", ")+" — fragments of one message can end up in two sets")
+						judgeSetMatch(c, phi, facts, ordered, ssn, isFrag)
 					}
 				})
+			}
+			// the lookup extracted into a helper that returns the chosen set
+			for _, pwg := range c.P.Region(pw) {
+				if pwg == pw || pwg.Signature.Results().Len() == 0 || typeShort(pwg.Signature.Results().At(0).Type()) != "*chunkSet" {
+					continue
+				}
+				for _, r := range allReturns(pwg) {
+					rv := retResults(r)[0]
+					if _, viaPhi := rv.(*ssa.Phi); viaPhi || !mentionsElemOf(rv, ordered, 0, map[ssa.Value]bool{}) {
+						continue
+					}
+					n++
+					judgeSetMatch(c, r, DomFacts(r.Block()), ordered, ssn, isFrag)
+				}
 			}
 			c.Check(n >= 1, "set-match-site", c.P.Pos(pw.Pos()), fmt.Sprintf("%d lookup site(s) of an existing ordered set", n), "no lookup of an existing ordered set found in pushWithError")
 		}})
@@ -491,4 +485,28 @@ func init() {
 				c.Check(ok, "start-resets-before-arming:"+f.fld.Name(), c.P.Pos(st.Pos()), f.name+" precedes the first interval", f.name+" does not precede the computation of the first interval: a restarted timer starts from the previous run's back-off")
 			}
 		}})
+}
+
+func judgeSetMatch(c *RuleCtx, at ssa.Instruction, facts []condFact, ordered, ssn *types.Var, isFrag *ssa.Function) {
+	var extra []string
+	okSSN, okFrag := false, false
+	for _, f := range facts {
+		if isLoopBound(f.Cond) || isRangeOK(f.Cond) {
+			continue
+		}
+		if !mentionsElemOf(f.Cond, ordered, 0, map[ssa.Value]bool{}) {
+			continue // says nothing about which queued set is chosen
+		}
+		switch {
+		case CmpCond(token.EQL, IsLoadOf(ssn), AnyV)(f.Cond, f.Taken):
+			okSSN = true
+		case CallCond(isFrag, true)(f.Cond, f.Taken):
+			okFrag = true
+		case phiExplainedBy(f.Cond, facts):
+		default:
+			extra = append(extra, fmt.Sprintf("%s=%v", shortValue(c.P, f.Cond), f.Taken))
+		}
+	}
+	c.Check(okSSN && len(extra) == 0, "set-match", c.Pos(at), fmt.Sprintf("existing set chosen by set.ssn == chunk.ssn (first-chunk-is-fragment test present: %v) and nothing else about the set", okFrag),
+		"the existing set of the message is chosen (or passed over) by another property of the queued set: "+strings.Join(extra, ", ")+" — fragments of one message can end up in two sets")
 }
